@@ -106,6 +106,29 @@ def run(ctx):
                                   "settings": {"RELATIVE_BASE": b, "PREFER_DATES_FROM": pref, "TIMEZONE": tzn},
                                   "expect": expect_str(cand), "stratum": "time/%s/%s" % (pref, "utc" if off == 0 else "offset"), "_rule": rule,
                                   "_off": off, "_localdate_differs": local_b.date() != b.date()})
+    # time-only strings under IANA zones, with the reference a couple of minutes on either side of the instant the clock time denotes
+    # today (that is where the one-day decision is taken); days on which the local and the UTC calendar date agree at the reference
+    import pytz
+    for tzn in ("Europe/Berlin", "America/New_York", "Asia/Kolkata", "Australia/Adelaide"):
+        z = pytz.timezone(tzn)
+        for day in ((D(2021, 6, 15), D(2021, 1, 20)) if tier == "quick" else (D(2021, 6, 15), D(2021, 1, 20), D(2022, 3, 10), D(2019, 11, 5))):
+            for (hh, mi) in ((12, 0), (9, 30)) + (() if tier == "quick" else ((14, 45), (11, 11))):
+                inst = z.localize(day.replace(hour=hh, minute=mi)).astimezone(pytz.utc).replace(tzinfo=None)
+                for delta in (-2, 2, -40, 40):
+                    b = inst + dt.timedelta(minutes=delta)
+                    local_b = pytz.utc.localize(b).astimezone(z).replace(tzinfo=None)
+                    if local_b.date() != b.date():
+                        continue
+                    for pref in PREFS:
+                        cand = local_b.replace(hour=hh, minute=mi, second=0, microsecond=0)
+                        if pref == "past" and cand > local_b:
+                            cand -= dt.timedelta(days=1)
+                        if pref == "future" and cand < local_b:
+                            cand += dt.timedelta(days=1)
+                        if cand.month != b.month:
+                            continue
+                        cases.append({"s": "%02d:%02d" % (hh, mi), "langs": ["en"], "settings": {"RELATIVE_BASE": b, "PREFER_DATES_FROM": pref, "TIMEZONE": tzn},
+                                      "expect": expect_str(cand), "stratum": "time/%s/iana-boundary" % pref, "_rule": None})
     # month [+ day] without year, and Feb 29: the property asks for an occurrence on the right side of the reference
     # (not necessarily the nearest one), inside the reference year for current_period, with the named parts kept
     def side_pred(b, m, d, pref, period):
